@@ -77,6 +77,12 @@ func verifPlan(kind string, chunked bool, burst bool) zzverif.Plan {
 	case "http_alt":
 		// an error answer that is not an OpenAI error envelope
 		return zzverif.Plan{Kind: "ok", Status: 404, Chunked: chunked, Body: `{"object":"error","message":"model not found","code":404}`}
+	case "http_text":
+		// an error answer that is not JSON at all (a gateway in front of the backend)
+		return zzverif.Plan{Kind: "ok", Status: 429, Chunked: chunked, CT: "text/plain", Body: "Too Many Requests: slow down"}
+	case "http_empty":
+		// an error status with an empty JSON-less page
+		return zzverif.Plan{Kind: "ok", Status: 503, Chunked: chunked, CT: "text/html", Body: "<html><body><h1>503 Service Unavailable</h1></body></html>"}
 	case "reset_after", "close_after":
 		return zzverif.Plan{Kind: kind, Status: 200, N: verifN, K: verifK, Chunked: chunked}
 	case "http_cut":
